@@ -14,14 +14,15 @@ import Paroxy.Proofs.FlatTweaks
 import Paroxy.Proofs.FlatAlias
 import Paroxy.Proofs.FlatBackport
 import Paroxy.Proofs.FlatNeg
+import Paroxy.Proofs.FlatEscape
 namespace Paroxy.Props.C15
 open Paroxy.Flat
 
 /-- What `flatten_ast` computes: the post-processing of the *pure* dump of the tree (after the
 on-the-fly reordering / renaming), hashes numbered by first occurrence from a fresh factory. -/
 theorem C15_flatten_eq (cfg : Cfg) (s : HashState) (t : Val) :
-    (flattenAst cfg s t).1 = postProcess (dumpP (hashFn (onTheFly cfg t)) [] [] (onTheFly cfg t)) := by
-  simp [flattenAst, dumpS_reset]
+    (flattenAst cfg s t).1 = postProcess (dumpP (hashFn (prep cfg t)) [] [] (prep cfg t)) := by
+  simp [flattenAst, flattenAstG, startState, dumpS_reset]
 
 /-- **C15 (pre-order, exactly once).** The dump of any tree is the concatenation, over the pre-order
 enumeration of the tree, of the lines of each entry — and the enumeration contains every node, list
@@ -75,6 +76,16 @@ theorem C15_path_nesting (v : Val) (k : Nat) (hk : k < 10) (p1 p2 : List Nat) (n
 
 example : posPath [0, 3, 1] = cs!"3-1-" ∧ posPath [0, 3, 12, 0] = cs!"3-12-0-" := by decide
 
+/-- Non-vacuity of the hypotheses of `C15_path_nesting`: in `Module(body=[Expr(value=Name)])` the `Expr`
+is at `[0, 1]`, the `Name` at `[0, 1, 0]`; the path of the first (`1-`) is a prefix of the path of the
+second (`1-0-`). -/
+example :
+    let t : Val := .node cs!"Module" false [] none
+      [(cs!"body", .list false [.node cs!"Expr" false [] (some 1)
+        [(cs!"value", .node cs!"Name" true cs!"Name(id='x')" (some 1) [])]])]
+    (t.at? [0, 1]).isSome = true ∧ (t.at? [0, 1, 0]).isSome = true ∧
+      posPath [0, 1] = cs!"1-" ∧ posPath [0, 1, 0] = cs!"1-0-" := by decide
+
 /-- The root itself (empty path) contains everything, and its shown path is empty. -/
 theorem C15_path_root (p : List Nat) : posPath [] <+: posPath p := by simp [posPath, encPath]
 
@@ -93,10 +104,19 @@ theorem C15_hash (t : Val) (p1 p2 : List Nat) {ty1 ty2 r1 r2 : Str} {ln1 ln2 : O
 example : hashFn (.node cs!"Name" true cs!"Name(id='a')" (some 1) []) cs!"Name(id='a')" = cs!"0x0001" := by
   decide
 
-/-- **C15 (stateless).** `flatten_ast` resets the factory first: its result does not depend on the
-state left by earlier flattenings. -/
+/-- **C15 (stateless).** Because `flatten_ast` first resets the factory (`startState true`), its result
+does not depend on the state left by earlier flattenings. -/
 theorem C15_stateless (cfg : Cfg) (s s' : HashState) (t : Val) :
-    (flattenAst cfg s t).1 = (flattenAst cfg s' t).1 := rfl
+    (flattenAst cfg s t).1 = (flattenAst cfg s' t).1 := by
+  simp [flattenAst, flattenAstG, startState]
+
+/-- The reset is what makes it so: without it (`doReset = false`) the dump of the same tree depends on
+the incoming state — here a factory that has already numbered one other expression. -/
+theorem C15_reset_needed :
+    ∃ (s : HashState) (t : Val),
+      (dumpS [] [] t (startState false s)).1 ≠ (dumpS [] [] t (startState false HashState.reset)).1 := by
+  refine ⟨HashState.reset.touch cs!"Name(id='b')", .node cs!"Name" true cs!"Name(id='a')" (some 1) [], ?_⟩
+  decide
 
 /-- **C15 (any sequence).** Flattening any sequence of trees in one process, from any initial
 state, gives for each tree the text of a single flattening from a fresh factory. -/
@@ -104,7 +124,9 @@ theorem C15_sequence (cfg : Cfg) (s : HashState) (ts : List Val) :
     (flattenSeq cfg s ts).1 = ts.map fun t => (flattenAst cfg HashState.reset t).1 := by
   induction ts generalizing s with
   | nil => rfl
-  | cons t ts ih => simp only [flattenSeq, List.map_cons, ih]; rfl
+  | cons t ts ih =>
+    simp only [flattenSeq, List.map_cons, ih]
+    simp [flattenAst, flattenAstG, startState]
 
 /-! ## "With the documented tweaks only": line-level passes are tree-level tweaks
 
@@ -219,9 +241,9 @@ theorem C15_tweaks_full (t0 : Val) (ty : Str) (e : Bool) (r : Str) (ln : Option 
 well-formed is the plain dump of the six tree-level tweaks of that form, hashes numbered by first
 occurrence in the untweaked tree. -/
 theorem C15_flatten_tweaked (cfg : Cfg) (s : HashState) (t : Val) (ty : Str) (e : Bool) (r : Str)
-    (ln : Option Nat) (fs : List (Str × Val)) (ht : onTheFly cfg t = .node ty e r ln fs)
-    (hwf : wfStages6 (onTheFly cfg t) = true) :
-    (flattenAst cfg s t).1 = dumpP (hashFn (onTheFly cfg t)) [] [] (stage6 (onTheFly cfg t)) := by
+    (ln : Option Nat) (fs : List (Str × Val)) (ht : prep cfg t = .node ty e r ln fs)
+    (hwf : wfStages6 (prep cfg t) = true) :
+    (flattenAst cfg s t).1 = dumpP (hashFn (prep cfg t)) [] [] (stage6 (prep cfg t)) := by
   rw [C15_flatten_eq, ht] at *
   exact C15_tweaks_full _ ty e r ln fs hwf
 
@@ -263,7 +285,23 @@ example : dumpP id [] [] (stage6 sampleNeg) =
      cs!"/body/1/value/_type=Num", cs!"/body/1/value/_hash=UnaryOp(op=USub(), operand=Constant(value=5))",
      cs!"/body/1/value/_pos=1:1-0-", cs!"/body/1/value/n=-5"] := by decide
 
-/-! ## The repaired findings (positive statements) and a witness of the recorded one -/
+/-! ## Escaped terminal values (fix b1d74a8; former findings F17 / F32) -/
+
+/-- The dump that escapes `_pos=` in its scalar case — what `flatten_node` does — is the plain dump of the
+tree whose terminal values are escaped (`prep` = on-the-fly tweaks, then `escapeTree`). -/
+theorem C15_escape_at_dump (h : Str → Str) (v : Val) (pre path : Str) :
+    dumpPE h pre path v = dumpP h pre path (escapeTree v) := dumpPE_eq h v pre path
+
+/-- No `_pos=` survives in an escaped value… -/
+theorem C15_escapePos_no_pos (r : Str) : hasInfix cs!"_pos=" (escapePos r) = false := escapePos_no_pos r
+
+/-- … hence the line of an escaped value is never taken for a position line (the clause of `wfAlias`
+about scalar lines holds whatever a string constant contains), as long as the *field name* does not end
+with `_pos`. -/
+theorem C15_escaped_value_not_poslike (pre r : Str) (hpre : '=' ∉ pre) (hsuf : ¬ cs!"_pos" <:+ pre) :
+    isPosLike (scalarLine pre (escapePos r)) = false := not_posLike_escaped r hpre hsuf
+
+/-! ## The repaired findings: regression instances (`example`s, not counted as obligations) -/
 
 def asyncDef : Val :=
   .node cs!"AsyncFunctionDef" false [] (some 1)
@@ -271,7 +309,7 @@ def asyncDef : Val :=
 
 /-- Former finding 9 (repaired by d0d94f6): the code as written moves the body of every definition
 last, `AsyncFunctionDef` included — it is the documented reordering. -/
-theorem C15_async_body_last :
+example :
     implCfg = specCfg ∧
       dumpP id [] [] (onTheFly implCfg asyncDef) =
         [cs!"/_type=AsyncFunctionDef", cs!"/_pos=1:", cs!"/name='f'", cs!"/decorator_list/_length=0",
@@ -280,13 +318,13 @@ theorem C15_async_body_last :
 
 /-- Former finding 11 (repaired by c370a5d): the repr-prefix test of `replace_one_constant` agrees
 with the real kind for bytes literals of both spellings (`b'…'` and `b"…"`). -/
-theorem C15_bytes_kind_agrees :
+example :
     (constantKindOfRepr cs!"b\"it's\"").1 = kindTypeName .bytes ∧
       (constantKindOfRepr cs!"b'ab'").1 = kindTypeName .bytes := by decide
 
 /-- Former findings 15a/15d (repaired by 83ae3f3): a value containing `/kind=` satisfies the clauses
 of `wfKinds` and its line is kept by the pass; only the `kind` attribute line goes. -/
-theorem C15_kind_in_value_kept :
+example :
     wfKinds (.scalar cs!"'a/kind=b'" .str) = true ∧
       suppressKinds [cs!"/body/1/value/_type=Constant", cs!"/body/1/value/value='a/kind=b'",
           cs!"/body/1/value/kind=None"] =
@@ -294,7 +332,7 @@ theorem C15_kind_in_value_kept :
 
 /-- Former finding 15c (repaired by 0ac09ad): quotes inside a bytes repr are left alone (the clause of
 `wfUnquote` holds for it), a `str` loses exactly its two delimiters. -/
-theorem C15_unquote_anchored :
+example :
     wfUnquote (.scalar cs!"b'=\"'" .bytes) = true ∧
       unquote [cs!"/body/1/value/s=b'=\"'", cs!"/body/1/value/s='a=\"b\"'"] =
         [cs!"/body/1/value/s=b'=\"'", cs!"/body/1/value/s=a=\"b\""] := by decide
